@@ -1458,6 +1458,15 @@ def corpus():
         L("imp", indent=0, prefix="h", dest=["h"], source=None, q=["exact", ["a"]]),
         L("mod", indent=0, name="h.a", path=["h", "a"], val={"lit": F(9)}, unit="m"),
         L("def", indent=0, name="z", path=["z"], kw="float", dims=[], val=ref(["exact", ["h", "a"]]), unit=None)]}))
+    # flat declare-then-assign programs (C17_refinement_declared_partial); the last one leaves a node without value
+    dl = [L("decl", indent=0, name="a", path=["a"], kw="float", dims=[], unit="m"),
+          L("def", indent=0, name="b", path=["b"], kw="int", dims=[], val={"lit": F(2)}, unit=None),
+          L("decl", indent=0, name="v", path=["v"], kw="int", dims=[[2, 2]], unit=None),
+          L("mod", indent=0, name="a", path=["a"], val={"lit": F(300)}, unit="cm"),
+          L("mod", indent=0, name="v", path=["v"], val={"lit": [F(5), F(6)]}, unit=None)]
+    progs.append(("declared-flat", {"sources": [], "base": None, "main": dl}))
+    progs.append(("declared-flat-on-base", {"sources": [], "base": [a3], "main": [dict(l, name="q" + l["name"], path=["q" + l["name"]]) for l in dl]}))
+    progs.append(("declared-flat-unassigned", {"sources": [], "base": None, "main": dl[:4]}))
     # known findings: n:n and text slices
     s3 = L("def", indent=0, name="s", path=["s"], kw="float", dims=[[3, 3]], val={"lit": [F(1), F(2), F(3)]}, unit=None)
     progs.append(("slice-n-n", {"sources": [], "base": None, "main": [
@@ -1674,6 +1683,22 @@ def tie_check(ctx, prog, tie, verdict, stream, imp=None):
             if both and not tie["inv"]:
                 ctx.disagreement(stream + ":theorem-tie", {"program": prog},
                                  "invB and runNB accept the base stage but invB refuses the environment the base parse returns")
+        if "declared" in tie:
+            # C17_refinement_declared_partial: flat programs of declarations / literal definitions / literal
+            # modifications from an environment accepted by invDB (declared nodes allowed).  verdict "ok" means the
+            # specification accepted and left no node without value: the theorem then demands that the model's parse
+            # (main loop + final validation) succeeds and that the strong invariant holds for the result.
+            tag = tie["declared"] + (".with_decl" if tie.get("declared_has_decl") else "")
+            ctx.count("tie.declared.%s" % tag)
+            if tie["declared"] == "accepts" and verdict == "ok":
+                ctx.count("tie.declared.accepts.spec_ok.final_inv_%s" % tie.get("inv_final"))
+                if tie.get("inv_final") is not True:
+                    ctx.disagreement(stream + ":theorem-tie", {"program": prog},
+                                     "invDB and litFragB accept, the specification accepts and leaves no node without value, "
+                                     "but the model's parse / final invB gives %s" % tie.get("inv_final"))
+            if tie["declared"] == "records-differ" and verdict == "ok" and all(l["indent"] == 0 for l in prog["main"]):
+                ctx.disagreement(stream + ":theorem-tie", {"program": prog},
+                                 "concD of the declared-node theorem builds other line records than the ones that are run")
         covered = tie["inv"] and tie.get("nested") == "accepts"
         ctx.count("tie.covered.%s" % ("yes" if covered else "no"))
         if covered and verdict == "ok":
@@ -1992,6 +2017,42 @@ def none_stream(ctx, count):
         none_judge(ctx, text, expect, form)
 
 
+def gen_declared(rng):
+    """flat programs of declarations, literal definitions and literal modifications (the fragment of
+    C17_refinement_declared_partial): nodes are declared without value and assigned later — or never"""
+    names = ["a", "b", "c", "d", "e"]
+    cat = {}
+    lines = []
+    for _ in range(rng.randint(2, 7)):
+        free = [x for x in names if x not in cat]
+        if free and (not cat or rng.random() < 0.5):
+            nm = rng.choice(free)
+            kw = rng.choice(["float", "float", "int", "str", "bool"])
+            shape = [] if rng.random() < 0.7 else [rng.randint(1, 3)]
+            unit = rng.choice([None, "m", "cm"]) if kw == "float" else None
+            dims = exact_dims(shape, rng)
+            cat[nm] = (kw, shape, unit)
+            if rng.random() < 0.55:
+                lines.append(L("decl", indent=0, name=nm, path=[nm], kw=kw, dims=dims, unit=unit))
+            else:
+                lines.append(L("def", indent=0, name=nm, path=[nm], kw=kw, dims=dims, val={"lit": gen_value(rng, kw, shape)}, unit=unit))
+        else:
+            nm = rng.choice(sorted(cat))
+            kw, shape, unit = cat[nm]
+            vkw = kw if rng.random() < 0.92 else rng.choice(["float", "str", "bool"])
+            munit = rng.choice([None, "mm", "m"]) if (kw == "float" and unit) else (None if rng.random() < 0.95 else "m")
+            lines.append(L("mod", indent=0, name=nm, path=[nm], val={"lit": gen_value(rng, vkw, shape)}, unit=munit))
+    if rng.random() < 0.8:
+        # assign what is still without value (mostly with a value of the declared type)
+        valued = {l["name"] for l in lines if l["k"] in ("def", "mod")}
+        for nm in sorted(cat):
+            if nm not in valued:
+                kw, shape, unit = cat[nm]
+                lines.append(L("mod", indent=0, name=nm, path=[nm], val={"lit": gen_value(rng, kw, shape)},
+                               unit=rng.choice([None, "mm"]) if (kw == "float" and unit) else None))
+    return {"sources": [], "base": None, "main": lines}
+
+
 def correspond(ctx):
     thorough = ctx.tier == "thorough"
     unit_table()
@@ -2003,6 +2064,8 @@ def correspond(ctx):
     slice_stream(ctx, 3000 if thorough else 400)
     query_stream(ctx, 3000 if thorough else 400)
     none_stream(ctx, 600 if thorough else 60)
+    # last, so that the streams above see the random sequence they saw before this stream existed
+    prog_stream(ctx, [("declared", gen_declared(ctx.rng)) for _ in range(600 if thorough else 60)], "declared")
 
 
 def search(ctx):
